@@ -794,14 +794,18 @@ def snapshot(xs):
 
 
 def same_items(a, b):
-    return len(a) == len(b) and forall_range(0, len(b), lambda j: a[j] == b[j])
+    return len(a) == len(b) and forall_range(0, len(b), lambda j: is_item(a[j], b[j]))
 
 
 def is_concat(a, x, y):
-    """a == x ++ y"""
+    """a == x ++ y  (y may be a plain list of a few objects)"""
+    if isinstance(y, list):
+        return len(a) == len(x) + len(y) \
+            and forall_range(0, len(x), lambda j: is_item(a[j], x[j])) \
+            and all(is_item(a[len(x) + k], y[k]) for k in range(len(y)))
     return len(a) == len(x) + len(y) \
-        and forall_range(0, len(x), lambda j: a[j] == x[j]) \
-        and forall_range(0, len(y), lambda j: a[len(x) + j] == y[j])
+        and forall_range(0, len(x), lambda j: is_item(a[j], x[j])) \
+        and forall_range(0, len(y), lambda j: is_item(a[len(x) + j], y[j]))
 
 
 # ---- _add_raw_doc: proved for dictionaries over (any subsets of) three keys, in every combination.  The body
@@ -1047,7 +1051,8 @@ def havoc_impl(interp, impl):
 
 
 IMPL_STATE = HavocBy(havoc_impl)
-IMPL_FRAME = {'self': IMPL_STATE, '@self._document_source': None, '@self._section_name_2_element_list': None}
+IMPL_FRAME = {'self': IMPL_STATE, '@self._document_source': None, '@self._section_name_2_element_list': None,
+              '@self._current_line': None}
 
 
 def lists_grown_by_new_empty_sections_only(self, old_lists):
@@ -1142,11 +1147,17 @@ from exactly_lib.section_document.source_location import SourceLocationInfo, Sou
 P_IMPL = P_DP + ':_Impl'
 
 
+def same_line_sequence(a, b):
+    """the same LineSequence object, or two single lines with the same number and text"""
+    return a is b or (a.first_line_number == b.first_line_number
+                      and len(a.lines) == 1 and len(b.lines) == 1 and a.lines[0] == b.lines[0])
+
+
 def located_in_current_file(location_info, self, source):
     """a SourceLocationInfo that carries `source` (the lines), the path of the current file and the chain of
     including files of the current file"""
     path = location_info.source_location_path
-    return path.location.source is source \
+    return same_line_sequence(path.location.source, source) \
         and path.location.file_path_rel_referrer is self._current_file_location._file_path_rel_referrer \
         and path.file_inclusion_chain is self._current_file_location._file_inclusion_chain \
         and location_info._abs_path_of_dir_containing_root_file_path \
@@ -1160,6 +1171,8 @@ def built_from(result, parsed, self):
     if not isinstance(result, model.SectionContentElement):
         return False
     if not located_in_current_file(result.source_location_info, self, parsed.source):
+        return False
+    if result.source_location_info.source_location_path.location.source is not parsed.source:
         return False
     if isinstance(parsed, pse.ParsedInstruction):
         return result.element_type is ElementType.INSTRUCTION \
@@ -1311,7 +1324,8 @@ def lists_extended(self, old_lists):
     d = self._section_name_2_element_list
     return conj([implies(k in old_lists,
                          k in d and len(slot(d, k)) >= len(slot(old_lists, k))
-                         and forall_range(0, len(slot(old_lists, k)), lambda j: slot(d, k)[j] == slot(old_lists, k)[j]))
+                         and forall_range(0, len(slot(old_lists, k)),
+                                          lambda j: is_item(slot(d, k)[j], slot(old_lists, k)[j])))
                  for k in SECTION_NAMES])
 
 
@@ -1359,7 +1373,7 @@ def _each_parsed_file_is_added(trace, self):
     return True
 
 
-M.contract(P_INCLUDE,
+M.contract(P_INCLUDE, event='include-files',
            params=dict(self=IMPL, inclusion_directive=PARSED_INCLUSION), ghosts=dict(orig=Str),
            requires=lambda self: section_ok(self) and in_section(self),
            old=lambda self: lists_snapshot(self),
@@ -1374,3 +1388,63 @@ M.loop(P_INCLUDE, 0,
            self, old, trace, inclusion_directive, _xs, _i),
        modifies={'self._section_name_2_element_list': SECTION_LISTS, 'file_to_include': 'local',
                  'included_doc': 'local'})
+
+
+# ---- the loop over the elements of a section
+
+P_READ = P_IMPL + '.read_section_elements_until_next_section_or_eof'
+
+
+def _section_triple(self):
+    return (self._name_of_current_section, self._parser_for_current_section, self._elements_for_current_section)
+
+
+def _read_inv(self, orig, old):
+    """old = (lists, section triple, offset) at the call"""
+    return impl_ok(self, orig) and in_section(self) and _same_section(self, old[1]) \
+        and lists_extended(self, old[0]) and off_of(self._document_source, orig) >= old[2]
+
+
+def _one_element_step(self, orig, pre, parsed_element, ghost, trace):
+    """One iteration: ONE element is parsed -- by the parser of the current section, at the position the
+    source was at -- and built with the location of the current file; it is appended to the list of the
+    current section and nothing else changes; or it is an including directive, and then its files are included
+    (the lists only grow at their ends)."""
+    if not (ghost['parsed-by'] is self._parser_for_current_section and ghost['parsed-from'] == pre[1]):
+        return False
+    if not built_from(parsed_element, ghost['parsed-element'], self):
+        return False
+    if isinstance(parsed_element, model.SectionContentElement):
+        name = self._name_of_current_section
+        d = self._section_name_2_element_list
+        return is_concat(self._elements_for_current_section, slot(pre[0], name), [parsed_element]) \
+            and other_lists_unchanged(self, pre[0], but=name) \
+            and not any(e[0] == 'include-files' for e in trace)
+    included = [e for e in trace if e[0] == 'include-files']
+    return len(included) == 1 and included[0][1]['self'] is self \
+        and included[0][1]['inclusion_directive'] is parsed_element and lists_extended(self, pre[0])
+
+
+M.contract(P_READ,
+           params=dict(self=IMPL), ghosts=dict(orig=Str),
+           requires=lambda self, orig: impl_ok(self, orig) and in_section(self),
+           old=lambda self, orig: (lists_snapshot(self), _section_triple(self), off_of(self._document_source, orig)),
+           modifies={'self': dict(_current_line=Any_), 'self._document_source': PS_FRAME,
+                     'self._section_name_2_element_list': HavocBy(_havoc_dict_of_lists)},
+           raises={FileSourceError: {'ensures': lambda self, exc, trace:
+                   # from an included file, or: about lines of this file, naming the current section
+                   any(e[0] == 'include-files' for e in trace)
+                   or (located_in_current_file(exc.source_location_info, self, exc.source)
+                       and exc.maybe_section_name is self._name_of_current_section)}},
+           may_raise=(FileAccessError, PARSER_EXCEPTION),
+           ensures={
+               'well-formed-same-section-lists-only-extended': lambda self, orig, old: _read_inv(self, orig, old),
+               'stops-at-end-or-at-a-header': lambda self:
+               self._current_line is None or is_header(self._current_line.text),
+           })
+M.loop(P_READ, 0,
+       invariant=lambda self, orig, old: _read_inv(self, orig, old),
+       pre=lambda self, orig: (lists_snapshot(self), off_of(self._document_source, orig)),
+       step=lambda self, orig, pre, parsed_element, ghost, trace:
+       _one_element_step(self, orig, pre, parsed_element, ghost, trace),
+       modifies=dict(IMPL_FRAME, parsed_element='local', ex='local'))
